@@ -32,7 +32,6 @@ import (
 	"github.com/itchio/lake/pools/fspool"
 	"github.com/itchio/savior"
 	"github.com/itchio/savior/seeksource"
-	"github.com/pkg/errors"
 
 	"github.com/itchio/wharf/pwr"
 	"github.com/itchio/wharf/pwr/bowl"
@@ -43,6 +42,25 @@ import (
 )
 
 func init() { register("C03", runC03) }
+
+// c03Cause unwraps pkg/errors-style wrappers (the patcher returns errors.WithStack(ErrStop)).
+func c03Cause(err error) error {
+	for err != nil {
+		c, ok := err.(interface{ Cause() error })
+		if !ok {
+			break
+		}
+		err = c.Cause()
+	}
+	return err
+}
+
+func c03Wrap(err error, what string) error {
+	if err == nil {
+		return nil
+	}
+	return fmt.Errorf("%s: %v", what, err)
+}
 
 // ---------------------------------------------------------------- build pairs
 
@@ -312,7 +330,7 @@ func c03Project(pi *c03PatchInfo, c *patcher.Checkpoint, g []byte) (c03Offer, er
 func (sc *c03Consumer) Save(c *patcher.Checkpoint) (patcher.AfterSaveAction, error) {
 	var buf bytes.Buffer
 	if err := gob.NewEncoder(&buf).Encode(c); err != nil {
-		return patcher.AfterSaveStop, errors.Wrap(err, "gob-encoding the checkpoint")
+		return patcher.AfterSaveStop, c03Wrap(err, "gob-encoding the checkpoint")
 	}
 	o, err := c03Project(sc.pi, c, buf.Bytes())
 	if err != nil {
@@ -429,7 +447,7 @@ func (cfg *c03Config) leg(d c03Disk, ckGob []byte, sc *c03Consumer) (string, str
 		if ckGob != nil {
 			var err error
 			if ck, err = c03Decode(ckGob); err != nil {
-				return errors.Wrap(err, "gob-decoding the checkpoint")
+				return c03Wrap(err, "gob-decoding the checkpoint")
 			}
 		}
 		p, err := lib.NewPatcher(cfg.patch)
@@ -447,28 +465,28 @@ func (cfg *c03Config) leg(d c03Disk, ckGob []byte, sc *c03Consumer) (string, str
 				TargetPool: fspool.New(p.GetTargetContainer(), cfg.oldDir), OutputFolder: d.out})
 		}
 		if err != nil {
-			return errors.Wrap(err, "creating the bowl")
+			return c03Wrap(err, "creating the bowl")
 		}
 		defer b.Close()
 		if sc != nil {
 			p.SetSaveConsumer(sc)
 		}
 		err = p.Resume(ck, fspool.New(p.GetTargetContainer(), poolDir), b)
-		if errors.Cause(err) == patcher.ErrStop {
+		if c03Cause(err) == patcher.ErrStop {
 			if sc == nil || sc.stopAt == 0 || len(sc.offers) != sc.stopAt {
-				return errors.New("ErrStop although the consumer did not ask to stop")
+				return fmt.Errorf("ErrStop although the consumer did not ask to stop")
 			}
 			res = "stop"
 			return nil
 		}
 		if err != nil {
-			return errors.Wrap(err, "Resume")
+			return c03Wrap(err, "Resume")
 		}
 		if sc != nil && sc.stopAt > 0 && len(sc.offers) >= sc.stopAt {
-			return errors.New("Resume returned nil although the consumer asked to stop")
+			return fmt.Errorf("Resume returned nil although the consumer asked to stop")
 		}
 		if err := b.Commit(); err != nil {
-			return errors.Wrap(err, "Commit")
+			return c03Wrap(err, "Commit")
 		}
 		res = "ok"
 		return nil
